@@ -103,7 +103,8 @@ func genRing(rt *rapid.T, zones []string, maxN int, base int64, used map[uint32]
 			continue
 		}
 		if rapid.IntRange(0, 5).Draw(rt, "ro") == 0 {
-			in.RO, in.ROTs = true, base-50000
+			// switched long ago, in this very second, or stamped by a clock that is ahead of the reader's
+			in.RO, in.ROTs = true, base+rapid.SampledFrom([]int64{-50000, -50000, 0, 3600}).Draw(rt, "roSwitchedAt")
 		}
 		out = append(out, in)
 	}
@@ -369,6 +370,17 @@ func TestShardLookbackRapid(t *testing.T) {
 				lookback = lb
 				vx.Class("window_starts_at_event_second", 1)
 			}
+		}
+		// "depends on nothing else": the same client may have answered other windows before (later ones,
+		// shorter or longer ones); with the cache on their answers must not leak into this one
+		for i, np := 0, rapid.IntRange(0, 2).Draw(rt, "earlierQueries"); i < np; i++ {
+			at := nowSec + int64(rapid.IntRange(0, 90).Draw(rt, "earlierQueryLater"))
+			lb := lookback
+			if rapid.Bool().Draw(rt, "earlierQueryOtherWindow") {
+				lb = int64(rapid.IntRange(1, 120).Draw(rt, "earlierQueryLookback"))
+			}
+			_ = r.ShuffleShardWithLookback(id, size, time.Duration(lb)*time.Second, time.Unix(at, 0))
+			vx.Class("lookback_queries_preceded_by_other_windows", 1)
 		}
 		got := members(r.ShuffleShardWithLookback(id, size, time.Duration(lookback)*time.Second, time.Unix(nowSec, 0)))
 		gotSet := map[string]bool{}
